@@ -37,8 +37,11 @@ class Gen:
                 st = r.choice([x for x in STYLES if x not in banned])
                 out.append(("style", st, self.inlines(depth - 1, False, allow_link, tuple(banned) + (st,))))
             elif k < 0.78 and allow_link:
-                tgt = "Tg%d" % r.randint(1, 99)
-                out.append(("link", tgt, self.words(1, 2) if r.random() < 0.7 else None))
+                if r.random() < 0.7:
+                    out.append(("link", "Tg%d" % r.randint(1, 99), self.words(1, 2)))
+                else:                                   # unlabelled: the target is the visible word, keep it unique
+                    self.n += 1
+                    out.append(("link", "Tq%dz" % self.n, None))
             elif k < 0.86 and allow_link:
                 out.append(("ext", "http://ex%d.org/p" % r.randint(1, 9), self.words(1, 2)))
             elif k < 0.93 and allow_ref:
